@@ -3,7 +3,8 @@
 Continuations are abstract with the interpreter's call shapes (theory/adev.py: Kont); `jax.jvp` of an arithmetic closure is
 evaluated with dual numbers (A7), so each estimator's output is compared with a polynomial closed form.  Unbiasedness of
 the score-function estimators is the score-function identity over the proved form (assumed, A8/A10).
-ADInterpreter.eval_jaxpr_adev (CPS over jaxprs) is outside the engine: bounded stand-in in bounded/adev_interpreter.py."""
+ADInterpreter.eval_jaxpr_adev (CPS over jaxprs) is under contract in contracts/adev_interp.py (schematic programs, cond included);
+the wiring from Expectation / grad_estimate down to it is the task adev.wiring below."""
 from pyvc.task import task
 from pyvc.values import NativeFn, Obj, SBool, SInt, SReal, Stacked, TupleT, UVal
 from theory.adev import Kont
@@ -206,3 +207,111 @@ def t_expectation(E):
     pure = E.call(A + ":Dual.tree_pure", (x, d[1]))
     E.prove("C29.Dual.tree_pure.zero_tangent_for_plain_leaves", E.And(
         E.eq(pure[0].fields["primal"], x), E.eq(pure[0].fields["tangent"], 0.0), E.eq(pure[1], d[1])))
+
+
+@task("adev.wiring", props=["C29"], functions=[A + ":Expectation.jvp_estimate", A + ":ADEVProgram.jvp_estimate", A + ":invoke_closed_over_jvp",
+                                               A + ":ADInterpreter.forward_mode", A + ":Dual.tree_unzip", A + ":Dual.dual_tree"])
+def t_wiring(E):
+    """the wiring between the user-facing entry points and the interpreter: Expectation.jvp_estimate -> ADEVProgram.jvp_estimate ->
+    ADInterpreter.forward_mode(source, kont)(key, dual_tree) -> eval_jaxpr_adev(key, jaxpr, consts, dual leaves) -> kont; and the
+    custom-JVP rule behind grad_estimate (invoke_closed_over_jvp): key, arguments, tangents and continuation reach the
+    interpreter unchanged, its dual result comes back unchanged.  Staging a Python callable is external (A11)."""
+    z3, I = E.z3, E.I
+    k = key(E)
+    # (1) ADEVProgram.jvp_estimate and Expectation.jvp_estimate, the interpreter entry abstract
+    fm_calls = []
+    run = E.ctx.fn("forward_mode_result", U, U, U, U, U)         # (source, kont, key, dual tree)
+
+    def forward_mode(I_, f, kont=None):
+        def inner(I2, key_, dual_tree):
+            fm_calls.append((f, kont, key_, dual_tree))
+            return UVal(run(I2.to_u(f), I2.to_u(kont), I2.to_u(key_), I2.to_u(dual_tree)))
+        return NativeFn("forward_mode(f, kont)", inner)
+    I.overrides[A + ":ADInterpreter.forward_mode"] = forward_mode
+    src = E.opaque("source", "Callable")
+    prog = E.new(A + ":ADEVProgram", source=src)
+    x, dx = E.real("x"), E.real("dx")
+    dtree = (dual(E, x, dx),)
+    kont = E.opaque("kont", "Callable")
+    got = E.method(prog, "jvp_estimate", k, dtree, kont)
+    E.require("C29.ADEVProgram.jvp_estimate.runs_the_interpreter_once", len(fm_calls) == 1)
+    f0, k0, key0, tree0 = fm_calls[0]
+    E.prove("C29.ADEVProgram.jvp_estimate.interprets_its_own_source_with_the_given_key_arguments_and_continuation", E.And(
+        I.to_u(f0) == src.t, I.to_u(k0) == kont.t, E.eq(key0, k), E.eq(tree0, dtree),
+        E.eq(got, UVal(run(src.t, kont.t, k.t, I.to_u(dtree))))))
+    del fm_calls[:]
+    ex = E.new(A + ":Expectation", prog=prog)
+    got2 = E.method(ex, "jvp_estimate", k, dtree)
+    E.require("C29.Expectation.jvp_estimate.runs_the_interpreter_once", len(fm_calls) == 1)
+    f1, k1, key1, tree1 = fm_calls[0]
+    probe = E.opaque("some_dual_result")
+    E.prove("C29.Expectation.jvp_estimate.passes_key_and_arguments_on_and_continues_with_the_identity", E.And(
+        I.to_u(f1) == src.t, E.eq(key1, k), E.eq(tree1, dtree), E.eq(I.call(k1, [probe], {}), probe),
+        E.eq(got2, UVal(run(src.t, I.to_u(k1), k.t, I.to_u(dtree))))))
+    # (2) the custom-JVP rule behind grad_estimate: (value, tangent) of the estimate at dual_tree(primals, tangents)
+    jv_calls = []
+
+    def jvp_estimate(I_, s, key_, dual_tree):
+        jv_calls.append((s, key_, dual_tree))
+        return dual(E, UVal(E.ctx.fn("est_primal", U, U, U)(I_.to_u(key_), I_.to_u(dual_tree)), "array"),
+                    UVal(E.ctx.fn("est_tangent", U, U, U)(I_.to_u(key_), I_.to_u(dual_tree)), "array"))
+    I.abstract_methods[("Expectation", "jvp_estimate")] = jvp_estimate
+    inst = E.opaque("instance", "Expectation")
+    y, dy = E.real("y"), E.real("dy")
+    v, t = E.call(A + ":invoke_closed_over_jvp", (inst, k, (x, y)), (None, None, (dx, dy)))
+    E.require("C29.invoke_closed_over_jvp.estimates_once", len(jv_calls) == 1)
+    want_tree = E.call(A + ":Dual.dual_tree", (x, y), (dx, dy))
+    E.prove("C29.invoke_closed_over_jvp.is_value_and_tangent_of_jvp_estimate_at_the_primals_and_tangents", E.And(
+        E.eq(jv_calls[0][1], k), E.eq(jv_calls[0][2], want_tree),
+        I.to_u(v) == E.ctx.fn("est_primal", U, U, U)(k.t, I.to_u(want_tree)),
+        I.to_u(t) == E.ctx.fn("est_tangent", U, U, U)(k.t, I.to_u(want_tree))))
+    # (3) forward_mode itself (the real one), staging and the jaxpr interpreter abstract
+    del I.overrides[A + ":ADInterpreter.forward_mode"]
+    ev_calls = []
+
+    def eval_jaxpr_adev(I_, key_, jaxpr, consts, flat_duals):
+        ev_calls.append((key_, jaxpr, consts, list(I_.iterate(flat_duals))))
+        return dual(E, UVal(E.ctx.fn("ev_primal", U, U, U)(I_.to_u(key_), I_.to_u(list(I_.iterate(flat_duals)))), "array"),
+                    UVal(E.ctx.fn("ev_tangent", U, U, U)(I_.to_u(key_), I_.to_u(list(I_.iterate(flat_duals)))), "array"))
+    I.overrides[A + ":ADInterpreter.eval_jaxpr_adev"] = eval_jaxpr_adev
+    jaxpr_marker, lits = E.opaque("the_jaxpr"), E.opaque("the_literals")
+    staged_on = []
+
+    def stage(I_, f):
+        def staged(I2, *primals):
+            staged_on.append((f, list(primals)))
+            closed = Rec_(jaxpr=jaxpr_marker, literals=lits)
+            return (closed, (None, None, NativeFn("out_tree", lambda I3: ("OUT1",))))
+        return NativeFn("staged", staged)
+    I.module_cache[(A, "stage")] = NativeFn("stage", stage)
+    I.ext["jax.tree_util.tree_unflatten"] = lambda I_, tree, leaves: (
+        list(I_.iterate(leaves))[0] if tree == ("OUT1",) else
+        UVal(E.ctx.fn("tree_unflatten", U, U, U)(I_.to_u(tree), I_.to_u(list(I_.iterate(leaves))))))
+    konts = []
+
+    def kont_fn(I_, v_):
+        konts.append(v_)
+        return UVal(E.ctx.fn("kont_result", U, U)(I_.to_u(v_)))
+    fm = E.call(A + ":ADInterpreter.forward_mode", src, NativeFn("kont", kont_fn))
+    res = I.call(fm, [k, dtree], {})
+    E.require("C29.forward_mode.stages_interprets_and_continues_once", len(staged_on) == 1 and len(ev_calls) == 1 and len(konts) == 1)
+    E.prove("C29.forward_mode.stages_the_function_on_the_primals", E.And(I.to_u(staged_on[0][0]) == src.t, E.eq(staged_on[0][1], [x])))
+    E.prove("C29.forward_mode.interprets_the_staged_jaxpr_with_the_given_key_on_the_dual_arguments", E.And(
+        E.eq(ev_calls[0][0], k), I.to_u(ev_calls[0][1]) == jaxpr_marker.t, I.to_u(ev_calls[0][2]) == lits.t,
+        len(ev_calls[0][3]) == 1 and E.eq(ev_calls[0][3][0].fields["primal"], x) and E.eq(ev_calls[0][3][0].fields["tangent"], dx)))
+    out = konts[0]
+    E.prove("C29.forward_mode.continues_with_the_interpreter_dual_result_and_returns_what_the_continuation_returns", E.And(
+        is_obj(out, "Dual"),
+        I.to_u(out.fields["primal"]) == E.ctx.fn("ev_primal", U, U, U)(k.t, I.to_u(ev_calls[0][3])),
+        I.to_u(out.fields["tangent"]) == E.ctx.fn("ev_tangent", U, U, U)(k.t, I.to_u(ev_calls[0][3])),
+        I.to_u(res) == E.ctx.fn("kont_result", U, U)(I.to_u(out))))
+    E.refutable("adev.wiring", E.eq(x, dx))
+
+
+class Rec_:
+    """a plain record (closed jaxpr) for the engine"""
+    def __init__(self, **kw):
+        self.__dict__.update(kw)
+
+    def pyvc_getattr(self, I, name):
+        return self.__dict__[name]
